@@ -2,8 +2,8 @@
 idioms that pin behaviours the generators reach only occasionally."""
 from progdsl import *
 
-_TINY = lambda: Real(1, 60)        # 2^-60: non-zero, far below any tolerance somebody might be tempted to use
-_NTINY = lambda: Real(-1, 62)
+_TINY = lambda: C("ScalarFloat", s="tiny")        # 2^-60: non-zero, far below any tolerance somebody might be tempted to use
+_NTINY = lambda: C("ScalarFloat", s="-tiny")      # -2^-200
 C01_PROBES = {
     # truthiness of reals: exactly zero is false, everything else is true (conditions and boolean operators)
     "tiny-real-truthiness": Prog([SetG("a", Int(0)), SetG("b", Int(0)), SetG("c", Int(0)),
@@ -109,6 +109,14 @@ C06_IDIOMS = {
                                             SetG("s", Call("std.sorted_by_key", Closure(["k", "v"], Set("n", Op("Add", Rd("n"), Int(10))),
                                                                                         Ret(Op("Mul", Rd("v"), Rd("n")))), Rd("t"))),
                                             SetG("n2", Rd("n"))],
+                                           natives=NATIVES + [{"name": "call1", "arity": 2, "beh": "call"}]),
+    # the first thing a called-back closure does is to create an inner closure over a variable of ITS enclosing function
+    "inner-closure-in-host-callback": Prog([Set("base", Int(100)),
+                                            Set("mk", Native("call1", Closure(["v"], Ret(Closure([], Ret(Op("Add", Rd("v"), Rd("base")))))), Int(7))),
+                                            SetG("q", Dyn(Rd("mk"))),
+                                            Set("t", Arr(Int(3), Int(9), Int(4))),
+                                            SetG("m", Call("std.max_by_key", Closure(["k", "v"], Set("f", Closure([], Ret(Op("Add", Rd("base"), Rd("v"))))),
+                                                                                     Ret(Dyn(Rd("f")))), Rd("t")))],
                                            natives=NATIVES + [{"name": "call1", "arity": 2, "beh": "call"}]),
     # closure capturing a parameter and a local of a function called with arguments, early return in between
     "capture-param-early-return": Prog([Set("k", Int(9)), Set("f", Call("mk", Int(4), Int(6))), SetG("r", Dyn(Rd("f"), Int(1)))],
